@@ -9,7 +9,11 @@ for l in open('/verif/properties.jsonl'):
         break
 wt = "/tmp/m/%s" % pid.lower()
 out = "/tmp/m/out_%s" % pid.lower()
-testcmd = "cd %s && /venv/bin/python -m pytest -q -p no:cacheprovider %s" % (wt, " ".join("vectorizers/tests/" + t for t in tests))
+if tests and tests[0].startswith("RAW:"):
+    targs = " ".join(tests)[4:]
+else:
+    targs = " ".join("vectorizers/tests/" + t for t in tests)
+testcmd = "cd %s && /venv/bin/python -m pytest -q -p no:cacheprovider %s" % (wt, targs)
 print(f"""You are testing the robustness of a Python library's behaviour. Work ONLY inside the git worktree `{wt}` (a checkout of the library TutteInstitute/vectorizers; run Python as `cd {wt} && PYTHONPATH={wt} PYTHONHASHSEED=0 /venv/bin/python ...`). Do not look at or touch `/repo` or `/verif`, and do not read anything outside `{wt}` and `{out}`.
 
 The library is supposed to satisfy this property:
